@@ -45,6 +45,13 @@ def generate(seed, tier):
                 op['path'] = '/data/local/tmp/a%d_%d' % (a, g.int(0, 999))
                 op['content']['size'] = min(op['content']['size'], 20000)
         actors.append(ops)
+    if g.chance(0.25):
+        # the device rejects some of the pulls (FAIL, then CLSE right behind it): whoever reads those two packets off the wire, the
+        # pull that owns them reports the device's reason
+        for ops in actors:
+            for op in ops:
+                if op['op'] == 'pull' and op['path'] in d['fs'] and g.chance(0.7):
+                    d.setdefault('recv_fail', {})[op['path']] = {'at': g.pick(['start', 'start', 'mid', 'end']), 'n': g.int(1, 2), 'reason': g.pick([b'Permission denied', b'No such file or directory', b'Is a directory']).hex(), 'then_close': g.chance(0.6)}
     for f in d['fs'].values():
         f['records'] = [max(r, 64) for r in f['records']]      # keep the number of packets (and traced steps) per run bounded
     if single:
